@@ -85,6 +85,9 @@ class C10(PropBase):
             for _ in range(30 if quick else 200):
                 k = 1 + rng.below(max(1, len(data) - 1))
                 add("exh-split2", data, [str(k), str(1 + rng.below(3))])
+        # 1b. numeric boundary files split at a random point (the digit limits must not depend on chunking)
+        for data in G.boundary_files():
+            add("boundary", data, [str(1 + rng.below(len(data) - 1))])
         # 2. grammar files under random small schedules (splits inside CRLF / sub-lines / CFI groups)
         for i in range(600 if quick else 8000):
             pbad = [0, 0, 0, 5, 20][rng.below(5)]
